@@ -64,8 +64,10 @@ func (g *GoFakeS3) routeBase(w http.ResponseWriter, r *http.Request) {
 		err = g.listBuckets(w, r)
 
 	} else {
-		http.NotFound(w, r)
-		return
+		// Only listing the buckets is possible without a bucket in the path;
+		// answer with an S3 error document like every other route does rather
+		// than with net/http's plain-text "404 page not found".
+		err = ErrMethodNotAllowed
 	}
 
 	if err != nil {
